@@ -321,7 +321,10 @@ def run_one(exe, line, timeout=60, env=None):
 
 # ---------------------------------------------------------------- Rust harness
 def build_harness(name, release=False, features=None, rustflags=None, toolchain=None, timeout=1500):
-    d = os.path.join(VERIF, "harness", name)
+    return build_harness_dir(os.path.join(VERIF, "harness", name), name, release, features, rustflags, toolchain, timeout)
+
+
+def build_harness_dir(d, name, release=False, features=None, rustflags=None, toolchain=None, timeout=1500):
     try:
         shutil.copy(os.path.join(REPO, "Cargo.lock"), os.path.join(d, "Cargo.lock"))
     except OSError:
